@@ -98,7 +98,7 @@ def run(ctx):
         uops = unit_ops(units)
         ops += uops
         exp += ['ok'] * len(uops)
-        nsteps = len(full) + len(units) + 3
+        nsteps = len(full) + 2 * len(units) + 3
         for rep in range(ctx.scale(8, 25)):
             kind = rng.choice(['none', 'eof', 'err', 'chatter', 'q', 'q', 'q-fails', 'chatter+eof'])
             events = []
